@@ -582,9 +582,14 @@ func main() {
 	if !worker {
 		r.Fork(len(cfgs), nil, r.CrashViolation)
 		if exe := os.Getenv("VERIF_RACE_EXE"); exe != "" {
-			cmd := exec.Command(exe)
+			rctx, rcancel := context.WithTimeout(context.Background(), 5*time.Minute) // harness safety only
+			cmd := exec.CommandContext(rctx, exe)
 			cmd.Env = append(os.Environ(), "VERIF_RACE_RUN=1", "GOMAXPROCS=8", "GORACE=halt_on_error=0")
 			out, _ := cmd.CombinedOutput()
+			if rctx.Err() != nil {
+				r.Cap("free-running -race pass was cut off after 5 minutes")
+			}
+			rcancel()
 			n := strings.Count(string(out), "WARNING: DATA RACE")
 			r.Set("race_pass_reports", n)
 			if n > 0 {
